@@ -162,11 +162,14 @@ class HitranCiaGrid(Logger):
             Master temperature grid
 
         """
+        # Range of the temperatures given in the file for this grid (the list
+        # grows while it is being filled)
+        t_lowest, t_highest = min(self.temperature), max(self.temperature)
         for t in temperatures:
             if t in self.temperature:
                 continue
             self.debug('Tempurature %s, %s', t)
-            if t < min(self.temperature) or t > max(self.temperature):
+            if t < t_lowest or t > t_highest:
                 self.add_temperature(t, np.zeros_like(self.wn))
             else:
                 indicies = self.find_closest_temperature_index(t)
